@@ -947,14 +947,21 @@ func (u *Unit) checkCallFrame(st *State, items []frameItem, all bool, pos token.
 			u.addObl(st, "frame", fmt.Sprintf("call to %s (modifies everything) inside %s", callee, fs.why), pos, False)
 			continue
 		}
+		// the allocation a frame item lives in (map items carry the map reference itself)
+		refOf := func(p *Term) *Term {
+			if p.Sort == SRef {
+				return p
+			}
+			return parr(p)
+		}
 		for _, it := range items {
 			var alts []*Term
 			if it.Ptr != nil {
-				alts = append(alts, Ge(App(SInt, "birth", parr(it.Ptr)), fs.since))
+				alts = append(alts, Ge(App(SInt, "birth", refOf(it.Ptr)), fs.since))
 			}
 			for _, mine := range fs.items {
 				if mine.Map == "*allocated*" && it.Ptr != nil {
-					alts = append(alts, Ge(App(SInt, "birth", parr(it.Ptr)), u.entry.now))
+					alts = append(alts, Ge(App(SInt, "birth", refOf(it.Ptr)), u.entry.now))
 					continue
 				}
 				if mine.Map != it.Map {
@@ -965,7 +972,7 @@ func (u *Unit) checkCallFrame(st *State, items []frameItem, all bool, pos token.
 					alts = append(alts, True)
 				case it.Ptr == nil:
 				case mine.AllIdx:
-					alts = append(alts, Eq(parr(it.Ptr), parr(mine.Ptr)))
+					alts = append(alts, Eq(refOf(it.Ptr), refOf(mine.Ptr)))
 				case !it.AllIdx:
 					alts = append(alts, Eq(it.Ptr, mine.Ptr))
 				}
